@@ -157,6 +157,23 @@ def entry(key, value, st, indent_cont=True):
   return out
 
 
+def decorate(sec_text, st):
+  """Things a hand-edited file contains and that mean nothing: full-line comments ('#', ';') and blank lines between
+  the entries of a section, trailing blanks, an indented section-less comment.  Continuation lines stay attached to
+  their entry (a comment or blank line is only put in front of a line that starts an entry)."""
+  if st.rng.random() < 0.6:
+    return sec_text
+  out = []
+  for i, line in enumerate(sec_text.split("\n")):
+    starts_entry = i > 0 and line[:1] not in (" ", "\t", "")
+    if starts_entry and st.rng.random() < 0.3:
+      out.append(st.rng.choice(["# a comment", "; another comment", "", "#", "# key : as.constant 99.0", "; [Pair]"]))
+    if st.rng.random() < 0.15:
+      line = line + st.rng.choice([" ", "  ", "\t"])
+    out.append(line)
+  return "\n".join(out)
+
+
 def model_text(model, st=None, extra_sections=None):
   """Full potable file for a model spec (see checks for the model layout)."""
   st = st or Style(plain=True)
@@ -226,6 +243,7 @@ def model_text(model, st=None, extra_sections=None):
   for es in extra_sections or []:
     secs.append(es)
   if not st.plain:
+    secs = [decorate(sec_, st) for sec_ in secs]
     head, rest = secs[:1], secs[1:]
     st.rng.shuffle(rest)
     if st.rng.random() < 0.5:
